@@ -835,6 +835,8 @@ impl BuildTargetActor {
                 /*[C08.single-inflight]*/ ongoing_build_fuse.running() == ongoing_build_cancellation_sender.is_some(),
                 self.helper.to_execute ==> !self.helper.executed,
                 /*[C01.ok-build]*/ self.helper.executed ==> !ongoing_build_fuse.running() && tr.last_done_ok,
+                // a successful (or skipped) run that nothing invalidated since is recorded as executed - which is what makes `told_if` say something
+                /*[C04.ack]*/ tr.last_done_ok && !ongoing_build_fuse.running() && tr.starts.len() > 0 ==> self.helper.executed || self.helper.to_execute,
                 /*[C01.ok-build]*/ told_only_if(&self.helper, *tr, ExecutionKind::Build, self.helper.executed && !self.helper.to_execute),
                 /*[C04.ack]*/ told_if(&self.helper, *tr, ExecutionKind::Build, self.helper.executed && !self.helper.to_execute),
                 /*[C11.build-false]*/ only_ok_actual(*tr, ExecutionKind::Service, false),
@@ -868,6 +870,9 @@ impl BuildTargetActor {
 //@arm Inval `self.helper.target_invalidated_events.next().fuse()`
 //@arm Msg `self.helper.target_actor_input_receiver.next().fuse()`
 //@arm Done `ongoing_build_fuse`
+            // before sitting down to wait: nothing that could have been started was left unstarted
+            assert(/*[C04.must-start]*/ !(self.helper.to_execute && self.helper.req(ExecutionKind::Build).len() != 0
+                && self.helper.un(ExecutionKind::Build).len() == 0 && self.helper.un(ExecutionKind::Service).len() == 0 && !ongoing_build_fuse.running()));
             let ghost log0 = tr.inlog;
             //---
             proof {
@@ -987,6 +992,7 @@ impl ServiceTargetActor {
                 /*[C01.book]*/ kinds_book(&self.helper, *tr),
                 self.helper.to_execute ==> !self.helper.executed,
                 /*[C01.ok-service]*/ self.helper.executed && !nonempty(tr.unreq) ==> self.service_process is Some,
+                /*[C04.ack]*/ self.service_process is Some ==> self.helper.executed || self.helper.to_execute,
                 /*[C01.ok-service]*/ told_only_if(&self.helper, *tr, ExecutionKind::Service, self.helper.executed && !self.helper.to_execute),
                 /*[C04.ack]*/ told_if(&self.helper, *tr, ExecutionKind::Service, self.helper.executed && !self.helper.to_execute),
                 /*[C11.service-true]*/ oks_actual(*tr, ExecutionKind::Service, true),
@@ -1013,6 +1019,8 @@ impl ServiceTargetActor {
 //@arm Term `self.helper.termination_events.next().fuse()`
 //@arm Inval `self.helper.target_invalidated_events.next().fuse()`
 //@arm Msg `self.helper.target_actor_input_receiver.next().fuse()`
+            assert(/*[C04.must-start]*/ !(self.helper.to_execute && self.helper.req(ExecutionKind::Service).len() != 0
+                && self.helper.un(ExecutionKind::Build).len() == 0 && self.helper.un(ExecutionKind::Service).len() == 0));
             let ghost log0 = tr.inlog;
             //---
             proof {
